@@ -226,6 +226,14 @@ def _is_ref_or_ptr_var(fn, ref):
     return True
 
 
+def _is_streambuf_ptr(e):
+    for x in (e, strip(e)):
+        t = ((x or {}).get("ct") or (x or {}).get("t") or "")
+        if "*" in t and any(w in t for w in ("basic_streambuf", "basic_stringbuf", "basic_filebuf", "streambuf", "stringbuf", "filebuf")):
+            return True
+    return False
+
+
 def rule_cout_state_census(prog, fixture=False):
     r = RuleResult("R-C11-2", "std::cout's error state is never reset and its stream buffer is never used "
                    "directly (clear/setstate/exceptions/rdbuf/copyfmt, ostreambuf_iterator, sync_with_stdio)",
@@ -255,7 +263,27 @@ def rule_cout_state_census(prog, fixture=False):
                               "%s.%s() on a reference to the base ostream, which callers bind to std::cout: the "
                               "stream's error state is rewritten, so a failed write before this point is no "
                               "longer visible to the final stream-state test" % (recv.get("n"), callee.get("n")))
-            elif k in ("CXXConstructExpr", "CXXTemporaryObjectExpr", "CXXFunctionalCastExpr"):
+            elif k == "CXXOperatorCallExpr" and n.get("op") == "<<" and len(n["c"]) == 3 and _is_streambuf_ptr(n["c"][2]):
+                r.add("%s::%s::insert-streambuf" % (fn.relfile(), fn.qn), fn.loc(n), False,
+                      "`%s` inserts a whole stream buffer: the stream's failbit is set only if *nothing* could be "
+                      "written, so a write that fails part-way leaves the stream good and the truncated output is "
+                      "reported as success" % show(n)[:60])
+            elif k == "CXXMemberCallExpr" and (strip(n["c"][0]) or {}).get("n") == "operator<<" and len(n["c"]) == 2 and \
+                    _is_streambuf_ptr(n["c"][1]):
+                r.add("%s::%s::insert-streambuf" % (fn.relfile(), fn.qn), fn.loc(n), False,
+                      "`%s` inserts a whole stream buffer: the stream's failbit is set only if *nothing* could be "
+                      "written, so a write that fails part-way leaves the stream good and the truncated output is "
+                      "reported as success" % show(n)[:60])
+            if k in ("CXXConstructExpr", "CXXTemporaryObjectExpr") and notpl(n.get("cls") or "") in BASE_STREAMS and n.get("c"):
+                # a second stream object on somebody else's buffer: its failures stay in its own state
+                for c in n["c"]:
+                    for x in walk(c):
+                        if x.get("k") == "CXXMemberCallExpr" and (strip(x["c"][0]) or {}).get("n") == "rdbuf" and len(x["c"]) == 1:
+                            r.add("%s::%s::stream-on-borrowed-buffer" % (fn.relfile(), fn.qn), fn.loc(n), False,
+                                  "a separate stream object is built on `%s`: a write that fails through it sets the "
+                                  "error state of that private object only, so the owner of the buffer (std::cout at "
+                                  "the end of main) never learns of it" % show(x)[:50])
+            if k in ("CXXConstructExpr", "CXXTemporaryObjectExpr", "CXXFunctionalCastExpr"):
                 cls = notpl(n.get("cls") or n.get("t") or "")
                 if "ostreambuf_iterator" in cls and any(_refs_cout(c) for c in n.get("c", [])):
                     r.add("%s::%s::ostreambuf_iterator(cout)" % (fn.relfile(), fn.qn), fn.loc(n), False,
